@@ -152,6 +152,14 @@ type Frame struct {
 	entrySt *State // state at function entry (for old())
 	debug   map[*ssa.BasicBlock][]debugRef
 	freeVar map[string]Val
+	defers  []deferRec // deferred calls recorded on the way (executed at RunDefers, last first)
+}
+
+// deferRec: a defer statement met while executing the frame. guard is the reach condition of the statement:
+// in any model it is true exactly when the path taken passes through the statement.
+type deferRec struct {
+	instr *ssa.Defer
+	guard Term
 }
 
 type debugRef struct {
